@@ -278,7 +278,7 @@ func (c *Ctx) headerWrappers() map[*types.Func]int {
 					if fn == nil {
 						continue
 					}
-					if k, ok := isBase(fn); ok && k < len(ce.Args) && identObj(info, unclamp(info, ce.Args[k])) == pv {
+					if k, ok := isBase(fn); ok && k < len(ce.Args) && identObj(info, windowBase(info, ce.Args[k])) == pv {
 						hit = true
 					}
 				}
@@ -1511,7 +1511,7 @@ func (c *Ctx) ownSites(u FuncUnit) []ownSite {
 						if sig := fn.Type().(*types.Signature); sig.Variadic() && argIdx == sig.Params().Len()-1 && !s.Ellipsis.IsValid() {
 							break // individual variadic arguments are packed into a fresh array
 						}
-						if wi, isW := c.headerWrappers()[u.Obj]; isW && identObj(info, unclamp(info, arg)) == u.Obj.Type().(*types.Signature).Params().At(wi) {
+						if wi, isW := c.headerWrappers()[u.Obj]; isW && identObj(info, windowBase(info, arg)) == u.Obj.Type().(*types.Signature).Params().At(wi) {
 							sites = append(sites, ownSite{"MUT.view", ord.next(fn.Name() + " over parameter"), s, Proved, "constructor wrapper: the obligation is checked at every call site of " + u.Name(), nil})
 							break
 						}
@@ -1713,6 +1713,19 @@ func unclamp(info *types.Info, e ast.Expr) ast.Expr {
 	return e
 }
 
+// windowBase: the slice a (possibly clamped) window is cut from — clampCap(cells[1:]) and cells[i:j]
+// are windows onto cells.
+func windowBase(info *types.Info, e ast.Expr) ast.Expr {
+	e = ast.Unparen(unclamp(info, e))
+	for {
+		se, ok := e.(*ast.SliceExpr)
+		if !ok || se.Slice3 {
+			return e
+		}
+		e = ast.Unparen(se.X)
+	}
+}
+
 // viewWrapperSummary: fn is a header wrapper (headerWrappers) that binds the
 // header it builds over its cells parameter to a local, gives that local the
 // seal of its *LVal parameter number src (`hdr.sealed = src.sealed` or
@@ -1758,7 +1771,7 @@ func (c *Ctx) viewWrapperSummary(fn *types.Func) (src int, clamps bool, ok bool)
 		if k < 0 || k >= len(ce.Args) {
 			return true
 		}
-		if identObj(info, unclamp(info, ce.Args[k])) == cellsParam {
+		if identObj(info, windowBase(info, ce.Args[k])) == cellsParam {
 			nctor++
 			hdr = identObj(info, as.Lhs[0])
 			clamps = unclamp(info, ce.Args[k]) != ce.Args[k]
